@@ -97,6 +97,10 @@ def run(rep, tier):
             ban_rule(rep, fn)
         if lab.endswith("bt_encode.c"):
             recursion_rule(rep, u)
+    # the number formatters are bounded only if their digit-count table is right (the abstract interpreter treats the
+    # table lookup as an opaque value, so this is a separate obligation)
+    from props import c14
+    c14.pow10_rule(rep, us["utils/num2str.h"])
     rep.floor("functions analysed", nfn, 130)
     rep.floor("tracked memory accesses", total, 330)
     return driver.finish(
